@@ -80,7 +80,15 @@ func PmtAccumulatorDoneFunc(b []byte) (bool, error) {
 	}
 
 	sectionBytes := b[start:]
-	for len(sectionBytes) > 2 && sectionBytes[0] != 0xFF {
+	if len(sectionBytes) == 0 {
+		// nothing of the first section has arrived yet
+		return false, nil
+	}
+	for len(sectionBytes) > 0 && sectionBytes[0] != 0xFF {
+		// the section length is only known once the 3 byte section header is complete
+		if len(sectionBytes) < 3 {
+			return false, nil
+		}
 		tableLength := sectionLength(sectionBytes)
 		if len(sectionBytes) < int(tableLength)+3 {
 			return false, nil
